@@ -5,7 +5,7 @@
    Statements only. *)
 From Coq Require Import ZArith List Bool String.
 From NQ Require Import Base.Bits Lang.Codec Lang.CodecCheck Lang.Asm Lang.AsmSem Lang.AsmSemQ Lang.Text Lang.TextFront Lang.AsmCheck.
-From NQ Require Import Proofs.CodecProofs Proofs.AsmProofs Proofs.AsmQProofs Proofs.WireBridge.
+From NQ Require Import Proofs.CodecProofs Proofs.AsmProofs Proofs.AsmQProofs Proofs.WireBridge Proofs.WireRange.
 From Gen Require Import Gen_Codec Gen_Asm.
 Import ListNotations.
 Open Scope Z_scope.
@@ -84,6 +84,46 @@ Proof.
   split; [exact (wire_simulates_of _ Ht)|split; [exact (wire_simulates_q_of _ Ht)|exact (wire_text_simulates_q_of _ Ht)]].
 Qed.
 
+(* ---------- the wire hop without the encoder's acceptance as a hypothesis ---------- *)
+
+(* the regenerated layouts are the standard ones (register = 2+4 bits, addresses int32, set's immediate int32) *)
+Theorem C03W_table_std :
+  table_std gen_vanilla = true /\ table_std gen_nv = true /\ table_std gen_reids = true
+  /\ (ap_nreg gen_params <= 16)%nat /\ (0 <=? ap_bankR gen_params) && (ap_bankR gen_params <? 4) = true.
+Proof. vm_compute. repeat split; try reflexivity; apply le_n. Qed.
+
+(* a source whose registers and literals fit (src_fits: decidable, source level), fewer than 2^31 instructions,
+   header values that fit: the encoder ACCEPTS the assembled program, the decoder returns exactly the assembled
+   instruction objects, and they simulate the source *)
+Definition wire_unconditional_q (t : list row) : Prop :=
+  forall P B v0 v1 app,
+    wf_src_q P = true -> src_fits gen_exempt t P = true ->
+    assemble gen_params t P = AOk B -> Z.of_nat (List.length B) < 2 ^ 31 ->
+    fits_all (h_layout gen_header) [v0; v1; app] = true ->
+    exists bytes, encode_checked gen_header (mkSub v0 v1 app B) = Some bytes
+      /\ decode_sub gen_header t bytes = Some (mkSub v0 v1 app B)
+      /\ forall n ss st, eqv_q gen_params (named P) ss st ->
+         exists m, (n <= m)%nat /\ cfg_rel_q gen_params P (arun_q P n (QRun 0 ss)) (arun_q (map embed B) m (QRun 0 st)).
+
+Lemma wire_unconditional_q_of t : wf_table t = true -> table_std t = true -> wire_unconditional_q t.
+Proof.
+  intros Ht Hstd P B v0 v1 app Hwf Hfit Hasm Hlen Hh.
+  destruct (assemble_encodes gen_params t P B gen_header v0 v1 app Hstd
+              (proj1 (proj2 (proj2 (proj2 C03W_table_std)))) (proj2 (proj2 (proj2 (proj2 C03W_table_std))))
+              Hfit Hasm Hlen Hh) as [bytes Henc].
+  exists bytes. split; [exact Henc|].
+  exact (wire_simulates_q_of t Ht P B v0 v1 app bytes Hwf Hasm Henc).
+Qed.
+
+Theorem C03W_wire_unconditional :
+  wire_unconditional_q gen_vanilla /\ wire_unconditional_q gen_nv /\ wire_unconditional_q gen_reids.
+Proof.
+  split; [|split].
+  - exact (wire_unconditional_q_of _ (proj1 (proj2 C03W_tables_ok)) (proj1 C03W_table_std)).
+  - exact (wire_unconditional_q_of _ (proj1 (proj2 (proj2 C03W_tables_ok))) (proj1 (proj2 C03W_table_std))).
+  - exact (wire_unconditional_q_of _ (proj1 (proj2 (proj2 (proj2 C03W_tables_ok)))) (proj1 (proj2 (proj2 C03W_table_std)))).
+Qed.
+
 (* non-vacuity: a text with a loop, labels, literals, bracket args, a gate, a scripted measurement is
    read, assembled for the vanilla table, ACCEPTED by the encoder, and the decoder returns the assembled
    instructions *)
@@ -115,3 +155,4 @@ Proof. vm_compute. reflexivity. Qed.
 Print Assumptions C03W_wire_vanilla.
 Print Assumptions C03W_wire_nv.
 Print Assumptions C03W_wire_reids.
+Print Assumptions C03W_wire_unconditional.
